@@ -1,4 +1,80 @@
-(* C07 - placeholder until the theorems are in place. *)
-Require Import RQ.Base.
-Theorem C07_placeholder : True. Proof. exact I. Qed.
-Print Assumptions C07_placeholder.
+(* C07 - No panic, abort or hang for any in-range input or call sequence.
+   In the model a panic is an `Err` result.  The theorems below cover the parts of the crate whose index and division
+   arithmetic the statement's anchors name; each is total (returns Ok) on its whole domain.  The property as a whole
+   (every operation of every sequence returns Ok) is not yet one theorem, hence the suffix _partial; what is not
+   covered here (curve edges in `rasterize`, the f32 path utilities, the glue of every DrawTarget operation) is decided
+   by the correspondence on the degenerate stream, where the model must answer Ok and the crate must return. *)
+Require Import RQ.Base RQ.F32 RQ.Rect RQ.Pixel RQ.PixelProofs RQ.Surface RQ.SurfaceProofs RQ.Raster RQ.RasterProofs RQ.RasterIdle
+               RQ.PathF RQ.Shader RQ.Target RQ.ClipProofs RQ.LayerProofs RQ.IdleProofs.
+
+(* (1) edge bucket indexing and slope divisions (src/rasterizer.rs:337-345, 366-431): whatever edge is added (line or
+   curve, any coordinates), every edge that is filed sits in a bucket row inside both the recorded bounds and the
+   bucket array, and carries no division by zero *)
+Theorem C07_edges_filed_in_range_partial : forall r swap sx sy ex ey curve cx cy,
+  0 < r_h4 r -> rinv r ->
+  rinv (add_edge r swap sx sy ex ey curve cx cy) /\
+  r_h4 (add_edge r swap sx sy ex ey curve cx cy) = r_h4 r /\ r_w4 (add_edge r swap sx sy ex ey curve cx cy) = r_w4 r /\
+  r_active (add_edge r swap sx sy ex ey curve cx cy) = r_active r.
+Proof. exact add_edge_rinv. Qed.
+Print Assumptions C07_edges_filed_in_range_partial.
+
+(* (2) ActiveEdge::step (src/rasterizer.rs:173-205) never divides by zero *)
+Theorem C07_step_never_divides_by_zero_partial : forall e cury, cinv e -> e_err e = false ->
+  e_err (step e cury) = false /\ cinv (step e cury) /\
+  e_y2 (step e cury) = e_y2 e /\ e_shift (step e cury) = e_shift e /\ e_wind (step e cury) = e_wind e.
+Proof. exact step_no_err. Qed.
+Print Assumptions C07_step_never_divides_by_zero_partial.
+
+(* (3) the mask buffers with their one-byte overrun allowance (src/blitter.rs:35-44, 57-84): for straight edges, any
+   surface size, any position, `rasterize` returns Ok with both blitters: no index outside the mask, no u8 overflow *)
+Theorem C07_rasterize_lines_total_partial : forall rule W H gs, 0 <= H ->
+  let r := add_segs (rast_new W H) gs in let b := get_bounds r in
+  0 <= r_w b -> 0 <= r_h b ->
+  (exists rm, rasterize blit_super rule r (maskbuf_new (x0 b) (y0 b) (r_w b) (r_h b)) = Ok rm) /\
+  (exists rm, rasterize blit_mask rule r (maskbuf_new (x0 b) (y0 b) (r_w b) (r_h b)) = Ok rm).
+Proof.
+  intros rule W H gs HH r b Hw Hh. split.
+  - destruct (rasterize_lines_coverage rule W H gs HH Hw Hh) as (r' & buf' & E & _). eexists. exact E.
+  - destruct (rasterize_lines_coverage_aliased rule W H gs HH Hw Hh) as (r' & buf' & E & _). eexists. exact E.
+Qed.
+Print Assumptions C07_rasterize_lines_total_partial.
+
+(* (4) no state survives a call: after every operation that returns the rasteriser is idle again, so no later call can
+   index a stale bucket or step a stale edge *)
+Theorem C07_rasteriser_idle_after_every_call_partial : forall st o st', raster_ok st -> step_op st o = Ok st' -> raster_ok st'.
+Proof. exact step_op_idle. Qed.
+Print Assumptions C07_rasteriser_idle_after_every_call_partial.
+
+(* (5) copy_surface / blend_surface / blend_surface_with_alpha (src/draw_target.rs:1002-1026): source rectangles and
+   destinations far outside either surface (within +-2^29) never index out of bounds nor overflow *)
+Theorem C07_surface_ops_total_partial :
+  forall (gr : Z -> Z -> result Z) (g : Z -> Z -> Z), (forall s d, gr s d = Ok (g s d)) ->
+  forall dw dh dbuf sw sh sbuf sr dx dy,
+    dom_ok dw dh sw sh sr dx dy -> zlen dbuf = dw * dh -> zlen sbuf = sw * sh ->
+    exists buf', composite_surface gr dw dh dbuf sw sh sbuf sr dx dy = Ok buf' /\ zlen buf' = zlen dbuf.
+Proof.
+  intros gr g Hg dw dh dbuf sw sh sbuf sr dx dy D L1 L2.
+  destruct (composite_surface_block_transfer gr g Hg dw dh dbuf sw sh sbuf sr dx dy D L1 L2) as (b & E & L & _).
+  exists b. split; assumption.
+Qed.
+Print Assumptions C07_surface_ops_total_partial.
+
+(* (6) the pixel arithmetic: 24 of the 28 blend modes are total on premultiplied input ... *)
+Theorem C07_separable_blends_total_partial : forall m s d, In m separable_modes ->
+  wf_px s -> wf_px d -> premul s = true -> premul d = true ->
+  exists v, blend m s d = Ok v /\ wf_px v /\ premul v = true.
+Proof. exact premul_blend_separable. Qed.
+Print Assumptions C07_separable_blends_total_partial.
+
+(* (7) ... and the other four are NOT: the dependency's Hue / Saturation / Color / Luminosity overflow a u32 or trip
+   pack_argb32's debug assertion on premultiplied input (open known findings nonsep-lum-overflow, color-assert) *)
+Theorem C07_nonseparable_blends_refuted :
+  blend Color 0xcece3fce 0x0d0d0d0d = Err DebugAssert /\
+  blend Hue 0x877c2f6e 0x06010000 = Err PixelOverflow /\
+  blend Saturation 0x8f675429 0x01000001 = Err PixelOverflow /\
+  blend Luminosity 0x01010000 0xed9457ea = Err PixelOverflow.
+Proof.
+  exact (conj (proj2 (proj2 premul_blend_Color_refuted)) (conj (proj2 (proj2 premul_blend_Hue_refuted))
+        (conj (proj2 (proj2 premul_blend_Saturation_refuted)) (proj2 (proj2 premul_blend_Luminosity_refuted))))).
+Qed.
+Print Assumptions C07_nonseparable_blends_refuted.
